@@ -68,7 +68,9 @@ type frozenHandle struct {
 	// real, when set, is a real file board holding the same log: reads go through
 	// FileStorage.GetMessages (the JSON lines, the scanner, the decoding)
 	real  storage.Storage
-	log   []storage.Message
+	// forward: ignore lists are handed to the real board (and applied by it alone)
+	forward bool
+	log     []storage.Message
 	limit int
 	ign   map[string]struct{}
 	ignO  map[uint64]struct{}
@@ -111,6 +113,9 @@ func (h *frozenHandle) GetMessages(offset uint64) ([]storage.Message, error) {
 func (h *frozenHandle) Close() error { return nil }
 func (h *frozenHandle) IgnoreMessages(ms []string, useOffset bool) error {
 	h.w.Gate("board.ignore", "")
+	if h.real != nil && h.forward {
+		return h.real.IgnoreMessages(ms, useOffset)
+	}
 	for _, m := range ms {
 		if useOffset {
 			var o uint64
@@ -123,6 +128,10 @@ func (h *frozenHandle) IgnoreMessages(ms []string, useOffset bool) error {
 	return nil
 }
 func (h *frozenHandle) UnignoreMessages() {
+	if h.real != nil && h.forward {
+		h.real.UnignoreMessages()
+		return
+	}
 	h.ign, h.ignO = map[string]struct{}{}, map[uint64]struct{}{}
 }
 
@@ -474,6 +483,28 @@ func runC08(w *World, tier string) (bool, interface{}) {
 			before[r] = projectNode(v, r, true)
 		}
 		fh := &frozenHandle{w: w, log: L, ign: map[string]struct{}{}, ignO: map[uint64]struct{}{}}
+		// half of the time the reset node reads a real file board (the ignore list is then
+		// FileStorage's own), and the log's tail reaches that board only after the node has
+		// re-read what was there: the polls after a reset are ordinary polls for new messages
+		var lateTail []storage.Message
+		var resetBoard storage.Storage
+		if w.Tape.Bool(1, 2, "resetOnFileBoard") && len(L) > 4 {
+			fs, err := file_storage.NewFileStorage(w.Path("reset_board.log"), w.Path("reset_board.lock"))
+			if err != nil {
+				panic(err)
+			}
+			defer fs.Close()
+			cut := len(L) - w.Tape.Choose(min(len(L)/2, 8)+1, "lateTail")
+			for _, m := range L[:cut] {
+				if err := fs.Send(m); err != nil {
+					panic(err)
+				}
+			}
+			lateTail = L[cut:]
+			resetBoard = fs
+			fh.real, fh.forward = fs, true
+			w.Stats.Fault("state-reset-on-a-real-file-board")
+		}
 		w.stopNode(v, true)
 		v.AltStorage = fh
 		if err := w.RestartNode(v); err != nil {
@@ -527,7 +558,59 @@ func runC08(w *World, tier string) (bool, interface{}) {
 		if len(Lf) > 0 {
 			target = Lf[len(Lf)-1].Offset + 1
 		}
+		// the offset the node reaches on what the board holds at the moment of the reset
+		stageTarget := uint64(0)
+		if resetBoard != nil {
+			skipSet := map[string]bool{}
+			for _, s := range ignored {
+				skipSet[s] = true
+			}
+			for _, m := range L[:len(L)-len(lateTail)] {
+				if !skipSet[fmt.Sprintf("%d", m.Offset)] {
+					stageTarget = m.Offset + 1
+				}
+			}
+		}
 		for i := 0; i < 4*len(L)+20 && v.Offset() < target; i++ {
+			if resetBoard != nil && len(lateTail) > 0 && v.Offset() >= stageTarget {
+				// one or two more polls that find nothing new, then the tail arrives (in one or two portions)
+				if w.Tape.Bool(1, 2, "idlePollFirst") {
+					w.Advance(1e9)
+					if p := v.inc.Poller; p.Parked() != nil {
+						w.RunPollTick(p)
+					}
+				}
+				k := len(lateTail)
+				if k > 1 && w.Tape.Bool(1, 2, "tailInPortions") {
+					k = 1 + w.Tape.Choose(k-1, "portion")
+				}
+				for _, m := range lateTail[:k] {
+					if err := resetBoard.Send(m); err != nil {
+						panic(err)
+					}
+					stageTarget = m.Offset + 1
+				}
+				for _, m := range lateTail[:k] {
+					for _, s := range ignored {
+						if s == fmt.Sprintf("%d", m.Offset) && stageTarget == m.Offset+1 {
+							stageTarget = 0 // recomputed below
+						}
+					}
+				}
+				lateTail = lateTail[k:]
+				if stageTarget == 0 {
+					skipSet := map[string]bool{}
+					for _, s := range ignored {
+						skipSet[s] = true
+					}
+					for _, m := range L[:len(L)-len(lateTail)] {
+						if !skipSet[fmt.Sprintf("%d", m.Offset)] {
+							stageTarget = m.Offset + 1
+						}
+					}
+				}
+				w.Stats.Probe("log-grew-after-the-reset")
+			}
 			w.Advance(1e9)
 			if p := v.inc.Poller; p.Parked() != nil {
 				w.RunPollTick(p)
